@@ -30,6 +30,9 @@ type txSpec struct {
 	// notary-assisted transaction: sender = Notary contract, signers[0] is the payer
 	notary bool
 	nkeys  uint8
+	// exhaust: 1 = SystemFee chosen so that SystemFee+NetworkFee equals the payer's deposit exactly,
+	// 2 = one datoshi less than the deposit, 0 = sysFee as given
+	exhaust int
 }
 
 func (w *world) committeeHash() util.Uint160 { return w.committeeSigner().ScriptHash() }
@@ -83,6 +86,14 @@ func (w *world) buildNotaryTx(s *txSpec, script []byte) *transaction.Transaction
 	}
 	neotest.AddNetworkFee(w.t, w.bc, tx, payer)
 	tx.NetworkFee += 5_000_000 // Notary.verify + its witness bytes
+	if s.exhaust != 0 {
+		if d := w.dump().deps[payer.ScriptHash()]; d != nil {
+			sys := d.amount.Int64() - tx.NetworkFee - int64(s.exhaust-1)
+			if sys >= s.sysFee {
+				tx.SystemFee = sys
+			}
+		}
+	}
 	magic := uint32(w.bc.GetConfig().Magic)
 	tx.Scripts = []transaction.Witness{
 		{InvocationScript: append([]byte{byte(opcode.PUSHDATA1), keys.SignatureLen}, w.notaryKey.SignHashable(magic, tx)...)},
